@@ -3,6 +3,7 @@
   (Mathlib-free so that it builds as an executable.)
 -/
 import J1939.Gen.Eval
+import J1939.Model.Ecu
 namespace J1939.Driver
 open J1939 J1939.Gen
 
@@ -23,8 +24,62 @@ def parseList (s : String) : Option (List Nat) :=
 def parseArg (s : String) : Option Arg :=
   if s.startsWith "[" then (parseList s).map Arg.l else s.toNat?.map Arg.n
 
+open J1939.Ecu in
+structure EcuSt where
+  core  : Ecu.Core := {}
+  preds : List (List Nat) := []      -- predicate k accepts the destinations listed
+deriving Inhabited
+
 structure St where
-  dummy : Nat := 0
+  now  : Nat := 1000000000          -- virtual clock (µs); starts at 1000 s so that deadlines are never 0
+  ecus : List EcuSt := []
+deriving Inhabited
+
+open J1939.Ecu
+
+def parseAddr (s : String) : Option AddrSpec :=
+  if s == "n" then some .none
+  else if s.startsWith "i" then (s.drop 1).toString.toNat?.map AddrSpec.int
+  else if s.startsWith "p" then (s.drop 1).toString.toNat?.map AddrSpec.pred
+  else none
+
+def showAddr : AddrSpec → String
+  | .none => "n"
+  | .int a => s!"i{a}"
+  | .pred p => s!"p{p}"
+
+def parseTOp (s : String) : Option TOp :=
+  match s.splitOn ":" with
+  | ["A", d, cb, ck] => do some (TOp.add (← d.toNat?) (← cb.toNat?) (← ck.toNat?))
+  | ["R", cb] => do some (TOp.remove (← cb.toNat?))
+  | ["S", cb, a] => do some (TOp.sub (← cb.toNat?) (← parseAddr a))
+  | ["U", cb] => do some (TOp.unsub (← cb.toNat?))
+  | ["T", dt] => do some (TOp.busy (← dt.toNat?))
+  | _ => none
+
+def showObs : Obs → String
+  | .call ev => s!"call {ev.cb} {ev.cookie}"
+  | .deliver cb prio pgn sa data => s!"deliver {cb} {prio} {pgn} {sa} {showList data}"
+
+def showSleep : Sleep → String
+  | .spin => "spin"
+  | .woken => "woken"
+  | .sleep d => s!"sleep {d}"
+
+def EcuSt.accept (e : EcuSt) (p dest : Nat) : Bool := (e.preds.getD p []).contains dest
+
+def dumpCore (c : Core) : String :=
+  let ts := ",".intercalate (c.timers.map fun t => s!"{t.cb}:{t.delta}:{t.deadline}:{t.cookie}")
+  let ss := ",".intercalate (c.subs.map fun d => s!"{d.cb}:{showAddr d.addr}")
+  s!"timers {ts} | subs {ss} | wake {c.wake}"
+
+def withEcu (st : St) (i : Nat) (f : EcuSt → EcuSt × List String) : St × List String :=
+  match st.ecus[i]? with
+  | none => (st, ["bad-stack"])
+  | some e => let (e', out) := f e; ({ st with ecus := st.ecus.set i e' }, out)
+
+def setAt {α} [Inhabited α] (l : List α) (k : Nat) (v : α) : List α :=
+  if k < l.length then l.set k v else l ++ List.replicate (k - l.length) default ++ [v]
 
 def step (st : St) (line : String) : St × List String :=
   match (line.trimAscii.toString.splitOn " ").filter (· ≠ "") with
@@ -37,6 +92,61 @@ def step (st : St) (line : String) : St × List String :=
       | some r => (st, [r])
       | none => (st, ["bad-unit"])
   | "units" :: _ => (st, [" ".intercalate unitNames])
+  | ["ecu.new"] => ({ st with ecus := st.ecus ++ [{}] }, [])
+  | ["adv", dt] => match dt.toNat? with
+    | some d => ({ st with now := st.now + d }, [])
+    | none => (st, ["bad-args"])
+  | "cbdef" :: i :: k :: ret :: ops =>
+    match i.toNat?, k.toNat?, ret.toNat?, ops.mapM parseTOp with
+    | some i, some k, some r, some ops =>
+      withEcu st i fun e => ({ e with core := { e.core with cbs := setAt e.core.cbs k { ret := r != 0, ops } } }, [])
+    | _, _, _, _ => (st, ["bad-args"])
+  | ["preddef", i, k, l] =>
+    match i.toNat?, k.toNat?, parseList l with
+    | some i, some k, some l => withEcu st i fun e => ({ e with preds := setAt e.preds k l }, [])
+    | _, _, _ => (st, ["bad-args"])
+  | ["timer.add", i, d, cb, ck] =>
+    match i.toNat?, d.toNat?, cb.toNat?, ck.toNat? with
+    | some i, some d, some cb, some ck => withEcu st i fun e => ({ e with core := e.core.addTimer st.now d cb ck }, [])
+    | _, _, _, _ => (st, ["bad-args"])
+  | ["timer.remove", i, cb] =>
+    match i.toNat?, cb.toNat? with
+    | some i, some cb => withEcu st i fun e => ({ e with core := e.core.removeTimer cb }, [])
+    | _, _ => (st, ["bad-args"])
+  | ["sub", i, cb, a] =>
+    match i.toNat?, cb.toNat?, parseAddr a with
+    | some i, some cb, some a => withEcu st i fun e => ({ e with core := e.core.subscribe cb a }, [])
+    | _, _, _ => (st, ["bad-args"])
+  | ["unsub", i, cb] =>
+    match i.toNat?, cb.toNat? with
+    | some i, some cb => withEcu st i fun e => ({ e with core := e.core.unsubscribe cb }, [])
+    | _, _ => (st, ["bad-args"])
+  | ["ecu.tick", i] =>
+    match i.toNat? with
+    | some i =>
+      match st.ecus[i]? with
+      | none => (st, ["bad-stack"])
+      | some e =>
+        let (c, clk, sl, obs) := e.core.pass st.now st.now (st.now + Gen.Const.Ecu.idle_wakeup)
+        ({ st with now := clk, ecus := st.ecus.set i { e with core := c } }, obs.map showObs ++ [showSleep sl])
+    | none => (st, ["bad-args"])
+  | ["ecu.notify", i, prio, pgn, sa, dest, data] =>
+    match i.toNat?, prio.toNat?, pgn.toNat?, sa.toNat?, dest.toNat?, parseList data with
+    | some i, some prio, some pgn, some sa, some dest, some data =>
+      match st.ecus[i]? with
+      | none => (st, ["bad-stack"])
+      | some e =>
+        let (c, clk, obs) := e.core.notifySubscribers e.accept st.now prio pgn sa dest data
+        ({ st with now := clk, ecus := st.ecus.set i { e with core := c } }, obs.map showObs)
+    | _, _, _, _, _, _ => (st, ["bad-args"])
+  | ["ecu.acceptable", i, dest] =>
+    match i.toNat?, dest.toNat? with
+    | some i, some dest => withEcu st i fun e => (e, [if e.core.isAcceptable dest then "True" else "False"])
+    | _, _ => (st, ["bad-args"])
+  | ["ecu.dump", i] =>
+    match i.toNat? with
+    | some i => withEcu st i fun e => (e, [dumpCore e.core])
+    | none => (st, ["bad-args"])
   | _ => (st, ["bad-op"])
 
 partial def loop (h : IO.FS.Stream) (out : IO.FS.Stream) (st : St) : IO Unit := do
